@@ -250,7 +250,7 @@ def run_graph(case):
     # R5 worker processes
     if case['use_mp'] == 0:
         c = mp_client()
-        with time_limit(120, 'C02:multiprocessing-hang', 'multiprocessing compute'):
+        with time_limit(600, 'C02:multiprocessing-hang', 'multiprocessing compute', cpu=False):
             mp = _compute(m, outputs, bs, seed, index, client=c)
         if mp != base:
             raise Violation('C02:client-dependent', 'multiprocessing client result differs from the native one; %s' % ctx)
